@@ -71,18 +71,25 @@ U('remove', r'bool remove\(const value_type& x\)', 'bool MinHeap_remove(struct M
 # ---- thread-safe wrappers: every operation takes the lock once, delegates under it, and releases it on every path --------------------------
 TP = ["""
 bool g_held; unsigned g_acquires, g_releases, g_inner;      /* ghost: lock state and counters */
+unsigned long g_v0, g_last;      /* ghost: what the first / the latest delegated call answered */
+unsigned long nondet_ulong(void);
 static inline void lk_lock(void) { __CPROVER_assert(!g_held, "lock(): not already held by this thread (SimpleLock is not recursive)"); g_held = 1; g_acquires++; }
 static inline void lk_unlock(void) { __CPROVER_assert(g_held, "unlock(): held"); g_held = 0; g_releases++; }
-static inline unsigned long inner(void) { __CPROVER_assert(g_held, "the wrapped container is only touched under the lock"); g_inner++; return 0; }
+static inline unsigned long inner(void) { __CPROVER_assert(g_held, "the wrapped container is only touched under the lock"); unsigned long v = nondet_ulong(); if (g_inner == 0) g_v0 = v; g_last = v; g_inner++; return v; }
 #define TS_PRE (!g_held && g_acquires == 0 && g_releases == 0 && g_inner == 0)
 #define TS_POST (!g_held && g_acquires == 1 && g_releases == 1 && g_inner >= 1)
 """]
 TS_LOWER = [rx(r'mutex\.lock\(\)', 'lk_lock()', 1, 1), rx(r'mutex\.unlock\(\)', 'lk_unlock()', 1), rx(r'\*orderedSet\.begin\(\)', 'inner()', 0), rx(r'(heap|orderedSet)\.\w+\((?:[^()]|\([^()]*\))*\)', 'inner()', 0),
             rx(r'(size_type|value_type|auto|bool) (\w+)\s*=', r'unsigned long \2 =', 0), rx(r'return p\.second;', 'return p != 0;', 0), rx(r'x == inner\(\)', '(inner() == 0)', 0)]
+# what each wrapper hands back, in terms of what the wrapped container answered under the lock
+TS_RESULT = {('ThreadSafeOrderedSet', 'find'): 'g_inner == 2 && __CPROVER_return_value == (unsigned long)(g_v0 != g_last)',   # set.find(x) != set.end()
+             ('ThreadSafeOrderedSet', 'pop'): '__CPROVER_return_value == g_v0 && g_inner == 2', ('ThreadSafeOrderedSet', 'push'): '__CPROVER_return_value == (g_v0 != 0) && g_inner == 1',
+             ('ThreadSafeOrderedSet', 'remove'): 'g_inner == 2 && __CPROVER_return_value == (g_v0 == 0 ? 1ul : (unsigned long)(g_last > 0))',
+             ('ThreadSafeMinHeap', 'push'): 'g_inner == 1', ('ThreadSafeMinHeap', 'clear'): 'g_inner == 1', ('ThreadSafeOrderedSet', 'clear'): 'g_inner == 1'}
 for cls, ops in (('ThreadSafeMinHeap', ['empty', 'size', 'top', 'push', 'pop', 'remove', 'find', 'clear']), ('ThreadSafeOrderedSet', ['empty', 'size', 'top', 'find', 'push', 'pop', 'remove', 'clear'])):
     for op in ops:
         anchor = {'empty': r'bool empty\(\) const', 'size': r'size_type size\(\) const', 'top': r'value_type top\(\) const', 'push': r'(void|bool) push\(const value_type& x\)', 'pop': r'value_type pop\(\)',
                   'remove': r'bool remove\(const value_type& x\)', 'find': r'bool find\(const value_type& x\) const', 'clear': r'void clear\(\)'}[op]
         UNITS.append(Unit(name='%s_%s' % (cls, op), src=PQ, within=r'class %s\b' % cls, anchor=anchor, proto='unsigned long %s_%s(unsigned long x)' % (cls, op),
-                          contract='__CPROVER_requires(TS_PRE)\n__CPROVER_ensures(TS_POST)\n__CPROVER_assigns(g_held, g_acquires, g_releases, g_inner)', prelude=TP, lower=TS_LOWER,
-                          no_flags=['--conversion-check'], says='%s::%s: takes the lock exactly once, touches the wrapped container only while holding it, and has released it on return (every path)' % (cls, op)))
+                          contract='__CPROVER_requires(TS_PRE)\n__CPROVER_ensures(TS_POST)\n__CPROVER_ensures(%s)\n__CPROVER_assigns(g_held, g_acquires, g_releases, g_inner, g_v0, g_last)' % TS_RESULT.get((cls, op), '__CPROVER_return_value == g_v0 && g_inner == 1'), prelude=TP, lower=TS_LOWER,
+                          no_flags=['--conversion-check'], says='%s::%s: takes the lock exactly once, touches the wrapped container only while holding it, and has released it on return (every path); the result is exactly what the wrapped container answered under the lock (one delegated call; OrderedSet pop/remove: two)' % (cls, op)))
